@@ -193,6 +193,9 @@ def _corpus_offer(worker, job, rec):
         return
     if worker.cwd is not None and "import" in job.get("code", ""):
         return
+    if job.get("state_id") == "s":
+        # by convention state "s" is only a cache of the std object for stateless jobs
+        job = {k: v for k, v in job.items() if k != "state_id"}
     if job.get("op", "eval") not in ("eval", "fmt", "parse", "lex") or "state_id" in job or "file" in job \
             or "jpath" in job or "fault" in job or "multi" in job or job.get("max_stack", 0) > 600:
         return
